@@ -418,7 +418,9 @@ class C41(Check):
                 "C41_test_and_set_only_on_match",
                 "C41_ids_distinct_refuted", "C41_lookup_returns_registered_id_refuted",
                 "C41_operations_return_refuted", "C41_get_returns_last_set_refuted",
-                "C41_fresh_info_reads_null_refuted")
+                "C41_fresh_info_reads_null_refuted",
+                "C41_conc_all_callers_agree", "C41_conc_single_winner", "C41_conc_constructed_objects",
+                "C41_conc_destructed_not_stored")
     comp = "info"
     extract_file = "theories/Extract/Extract_Info.v"
     extracted = ("info",)
@@ -438,14 +440,25 @@ class C41(Check):
         "destructors run once per stored value at unregistration.  These theorems hold for the REPAIRED rules; for each of "
         "the three rules of the unchanged code (fixes flags of InfoDefs.v) a _refuted theorem gives the operation sequence "
         "on which the property fails, and the check replays it on the real code.  The model that is run against /repo is "
-        "selected by InfoCode.code_fixes (all false = unchanged code).  Sequential (T-seq) level: full for sequential "
-        "histories; the concurrent part of the statement (rwlock-protected resize, CAS in test_and_set) is not modelled.")
+        "selected by InfoCode.code_fixes (all false = unchanged code).  Concurrent half (InfoConcDefs.v): an atomic-step "
+        "model of test_and_set / set / get run by any number of threads on one object array, one step per scheduling "
+        "point of the T-sched harness (atomic operations of the rw-lock and of the registry list lock, the CAS); theorems "
+        "for any thread programs and ANY schedule: on a slot used publish-once (test_and_set from NULL, gets with or "
+        "without constructor) every non-NULL value returned is the value the slot holds, so all callers agree and at most "
+        "one of them installed its own value; an object constructed during a get is either the value returned or "
+        "destructed exactly when the info has a destructor, and a destructed object is never the stored one.  The model is "
+        "compared step for step with the real code under controlled schedules (T-sched); in addition a race-exploration "
+        "build makes every plain access to the slots, the array fields, the rw-lock and the registry a scheduling point and "
+        "feeds the oracle (search only).  Not modelled concurrently: registration / unregistration racing with the array "
+        "operations and the resize under the write lock (the arrays of the T-sched cases are created large enough).")
     level_note = ("Trusted: Coq kernel, extraction, harness, the Python dictionary oracle.  The harness #includes info.c with its "
                   "allocator calls redirected so that realloc-grown memory is filled with 0xA5 and calloc'ed memory is zero: "
                   "indeterminate bytes become a visible value, the model uses the same constant.  Little-endian 64-bit pointers.  "
                   "Clients use the id returned by register and only ids <= max_id (the harness refuses others as the assert "
                   "in the code would); parsec_info_get with a negative id (returns NULL) is not modelled.")
-    technique = ("Coq proof (sortedness invariant of the registry under the repaired insertion rule; forward simulation of a "
+    technique = ("Coq proof (invariant over all schedules of the atomic-step model, fold_left_inv) + T-sched differential run "
+                 "(cosched coroutines, interpose.h) + race exploration (clang -fsanitize=thread + tsanrt.c); "
+                 "Coq proof (sortedness invariant of the registry under the repaired insertion rule; forward simulation of a "
                  "dictionary specification by the slot arrays) + vm_compute witnesses for the unchanged rules + differential "
                  "run of info.c (included in the harness, poisoning allocator) against the extracted model, results and full "
                  "registry / array contents compared after every operation")
@@ -455,12 +468,18 @@ class C41(Check):
             "the byte-counting memset), first use of a new id on the old array by get / set / test_and_set, all values read "
             "back; (c) random mixes of all nine operations, mostly valid (test_and_set with old = current / NULL / other), "
             "with constructors (incl. one returning NULL) and destructors.  Non-trivial = at least one registration and one "
-            "set/get/test_and_set/unregister; distinct = distinct case text")
+            "set/get/test_and_set/unregister; distinct = distinct case text.  (d) T-sched: 1..3 infos, 2..5 threads of 1..4 "
+            "operations (families: everybody test_and_set(NULL -> own value) + gets; everybody asks for the constructed "
+            "default; chains whose expected value is a value another thread writes; mixes with set), every value written is "
+            "distinct and non-NULL; schedules: none (round-robin), one thread after the other, everybody up to the CAS then "
+            "in reverse, random up to 60 steps (200 for the race exploration).  Non-trivial = two threads share an id")
     trusted = ("harness/h_info.c: info.c, parsec_list.c, parsec_object.c, parsec_rwlock.c are #included; malloc/calloc/realloc/"
                "free/strdup inside info.c go to wrappers (0xA5 fill, zero fill, 0x5A on free); cases run in a forked child so "
                "that a crash of the code under test is an observation",
                "the constructor / destructor callbacks are the harness' own (constructor value = f(cons_data, cons_obj))")
-    assumptions = ("sequential use (one thread); malloc/realloc never fail; int ids far from overflow",
+    assumptions = ("sequential theorems: one thread; concurrent theorems: sequentially consistent atomic steps at the "
+                   "granularity of the parsec_atomic_* calls, no registration or resize concurrent with the array operations",
+                   "malloc/realloc never fail; int ids far from overflow",
                    "64-bit little-endian pointers (the memset of the unchanged code clears low-order bytes)",
                    "clients pass ids returned by parsec_info_register, not above max_id")
 
